@@ -3,7 +3,7 @@ import itertools
 import random
 import sys
 
-from common import main, model_scalars
+from common import main, budget, model_scalars
 
 
 class _Frame:
@@ -123,7 +123,7 @@ def gen_objects(rnd):
 def search(item, seed):
     rnd = random.Random(seed)
     if "interpolate_object" in item["func"] or "interpolate_state" in item["func"] or "interpolate_quaternion" in item["func"] or item["name"] == "bounded-native-search":
-        for _ in range(150):
+        for _ in range(budget(150)):
             case = gen_objects(rnd)
             try:
                 why = check_objects(case)
